@@ -26,6 +26,12 @@
 // parameter, a receiver or a private helper does not change what the theorems quote.  The `pos` column of an access
 // (file:line) is information only.
 //
+// A private helper that no theorem can name (unexported, not in `privateFns`, not a goroutine body) and that is referenced
+// exactly once in the package, by an ordinary call, is walked AS PART OF ITS CALLER (`markMerged`, `inlineDecl`) like a
+// function literal called in place: its accesses, call edges and events belong to the caller, with the locks held there.
+// So extracting the locked part of DB.Close into a method (or inlining a one-line helper) changes neither
+// `clientPrologues` nor `openOrder` / `closeOrder`, and the race check still sees every access with its lock set.
+//
 // Purity.lean: for the documented thread-safe read paths of recordio.MMapReader, sstables.SSTableReader,
 // SliceKeyIndex and SuperSSTableReader: every assignment to a receiver field or package-level variable on the
 // path (expected: none; Scan is listed as the known exception).
@@ -101,6 +107,8 @@ type fnInfo struct {
 	edges    []edge
 	events   []string // ordered events (only kept for Open and Close)
 	retTag   string
+	merged   bool // a nameless-to-the-theorems private helper with one call site: walked as part of its caller
+	active   bool // being walked as part of a caller (recursion guard)
 }
 
 type structInfo struct {
@@ -600,6 +608,98 @@ func (w *walker) funcLit(fl *ast.FuncLit, invoked bool) {
 	w.env = savedEnv
 }
 
+// inlineDecl: the body of a merged helper (see `markMerged`) is walked where its single call stands — exactly like a
+// function literal that is called in place (its own frame: locks whose release it defers are released when it ends), with
+// the helper's receiver and parameters bound by their declared types.  Accesses, call edges and events made there belong to
+// the caller, so that moving a stretch of a method into a private helper (or a literal into a method, or back) changes
+// neither the prologue of the caller nor openOrder / closeOrder.
+func (w *walker) inlineDecl(fi *fnInfo) string {
+	fi.active = true
+	defer func() { fi.active = false }()
+	savedEnv := w.env
+	w.env = map[string]string{}
+	if fi.decl.Recv != nil {
+		for _, nm := range fi.decl.Recv.List[0].Names {
+			w.env[nm.Name] = fi.recv
+		}
+	}
+	for _, p := range fi.decl.Type.Params.List {
+		if tag := typeTagOfParam(p.Type); tag != "" {
+			for _, nm := range p.Names {
+				w.env[nm.Name] = tag
+			}
+		}
+	}
+	w.frames = append(w.frames, frame{})
+	w.block(fi.decl.Body.List)
+	d := w.top().deferred
+	w.frames = w.frames[:len(w.frames)-1]
+	w.held &^= d
+	if d&(dbR|dbW) != 0 {
+		w.held &^= guard
+		w.event("unlock:db")
+	}
+	w.env = savedEnv
+	return fi.retTag
+}
+
+// markMerged: which functions are walked as part of their caller.  A function of the package qualifies when NO theorem can
+// name it and it is a plain helper: unexported, not recorded in `privateFns`, not a goroutine body, and referenced exactly
+// once in the package — as the callee of an ordinary call (not `go`, not `defer`, not as a value) outside its own body.
+func markMerged(files []*ast.File) {
+	refs := map[string]int{}     // by bare name: every mention
+	goodCall := map[string]int{} // mentions that are the callee of an ordinary call
+	owner := map[*ast.Ident]string{}
+	bare := map[string][]string{} // bare name → qualified names
+	for q, fi := range funcs {
+		bare[fi.decl.Name.Name] = append(bare[fi.decl.Name.Name], q)
+	}
+	for _, f := range files {
+		for _, d := range f.Decls {
+			fd, ok := d.(*ast.FuncDecl)
+			if !ok || fd.Body == nil {
+				continue
+			}
+			special := map[*ast.CallExpr]bool{}
+			ast.Inspect(fd.Body, func(n ast.Node) bool {
+				switch x := n.(type) {
+				case *ast.GoStmt:
+					special[x.Call] = true
+				case *ast.DeferStmt:
+					special[x.Call] = true
+				case *ast.CallExpr:
+					var id *ast.Ident
+					switch g := x.Fun.(type) {
+					case *ast.Ident:
+						id = g
+					case *ast.SelectorExpr:
+						id = g.Sel
+					}
+					if id != nil && !special[x] && id.Name != fd.Name.Name {
+						goodCall[id.Name]++
+						owner[id] = fd.Name.Name
+					}
+				case *ast.Ident:
+					refs[x.Name]++
+				}
+				return true
+			})
+		}
+	}
+	for name, qs := range bare {
+		if len(qs) != 1 || ast.IsExported(name) || goKinds[name] != "" {
+			continue
+		}
+		fi := funcs[qs[0]]
+		if _, recordedName := privateFns[qs[0]]; recordedName {
+			continue
+		}
+		if refs[name] == 1 && goodCall[name] == 1 {
+			fi.merged = true
+		}
+	}
+}
+
 // expr walks an expression in read position and returns its type tag
 func (w *walker) expr(e ast.Expr) string {
 	switch x := e.(type) {
@@ -722,6 +822,9 @@ func (w *walker) call(c *ast.CallExpr) string {
 		return ""
 	case *ast.Ident:
 		args()
+		if fi, ok := funcs[f.Name]; ok && fi.merged && !fi.active && w.env[f.Name] == "" {
+			return w.inlineDecl(fi)
+		}
 		if _, ok := funcs[f.Name]; ok {
 			w.fn.edges = append(w.fn.edges, edge{caller: w.fn.name, callee: f.Name, locks: w.held, pos: c.Pos(), phase: w.phase})
 			w.event("call:" + f.Name)
@@ -757,6 +860,9 @@ func (w *walker) call(c *ast.CallExpr) string {
 		args()
 		if _, ok := structs[t]; ok {
 			name := t + "." + f.Sel.Name
+			if fi, ok := funcs[name]; ok && fi.merged && !fi.active {
+				return w.inlineDecl(fi)
+			}
 			if fi, ok := funcs[name]; ok {
 				w.fn.edges = append(w.fn.edges, edge{caller: w.fn.name, callee: name, locks: w.held, pos: c.Pos(), phase: w.phase})
 				w.event("call:" + name)
@@ -920,6 +1026,16 @@ func genAccess(repo string) string {
 			funcs[name] = &fnInfo{name: name, decl: fd, recv: r, exported: fd.Name.IsExported()}
 			names = append(names, name)
 		}
+	}
+	markMerged(files)
+	{
+		var kept []string
+		for _, n := range names {
+			if !funcs[n].merged {
+				kept = append(kept, n)
+			}
+		}
+		names = kept
 	}
 	sort.Strings(names)
 	// return tags: a method whose only return statement returns a content field of the receiver
